@@ -509,7 +509,10 @@ func (w *world) showObj(c *Ctor, obj bin.Object) string {
 func errClass(err error) string {
 	var il *bin.InvalidLengthError
 	var ui *bin.UnexpectedIDErr
+	var nd *bin.NestingDepthError
 	switch {
+	case errors.As(err, &nd):
+		return "depth"
 	case errors.Is(err, io.ErrUnexpectedEOF):
 		return "eof"
 	case errors.As(err, &il):
